@@ -954,6 +954,22 @@ func (g *Gen) havocAll(h *Heap, guard string, why string) *Heap {
 // assumeMonotone: latch ghosts only ever go from false to true.
 func (g *Gen) assumeMonotone(h, h2 *Heap, guard string, names []string) {
 	for _, gd := range g.specs.Ghosts {
+		if gd.Counter && len(gd.Params) == 0 {
+			vn := "G." + gd.Name
+			if names != nil {
+				found := false
+				for _, n := range names {
+					if n == vn {
+						found = true
+					}
+				}
+				if !found {
+					continue
+				}
+			}
+			g.vc.AssumeAt(guard, App(">=", h2.Get(vn, SInt), h.Get(vn, SInt)), "counter "+gd.Name+" only grows")
+			continue
+		}
 		if !gd.Monotone || gd.Kind != "ghost" {
 			continue
 		}
